@@ -30,6 +30,11 @@ def enc_table(tab):
     return ";".join("%s,%d,%s" % (U.enc(k), st, "N" if sp is None else str(sp)) for st, sp, kmers in tab for k in kmers)
 
 
+def enc_entries(tab):
+    """the finder's entries as it holds them: start,stop,kmer/kmer/...;..."""
+    return ";".join("%d,%s,%s" % (st, "N" if sp is None else str(sp), "/".join(U.enc(k) for k in kmers)) for st, sp, kmers in tab)
+
+
 def window_oob(tab, n):
     """does some entry's window extend past a read of length n (where the compiled code reads out of bounds)"""
     for st, sp, _ in tab:
@@ -149,6 +154,7 @@ def check(ctx):
         ex_specs = [s for i, s in enumerate(ex_specs) if i % 3 == 0]
     groups += [(s, ex_reads) for s in ex_specs]
     kp_lines, kp_impl, kp_meta = [], [], []
+    kp2_lines = []
     mt_lines, mt_impl, mt_meta = [], [], []
     for spec, reads in groups:
         try:
@@ -211,7 +217,19 @@ def check(ctx):
                 kp_impl.append((kf.kmers_present(q), window_oob(tab, len(q))))
                 kp_lines.append("kpresent %d %d|%s|%s" % (int(ad.adapter_wildcards), int(ad.read_wildcards), enc_table(tab), U.enc(q)))
                 kp_meta.append((spec, r))
+                kp2_lines.append("kpresentsa %d %d|%s|%s" % (int(ad.adapter_wildcards), int(ad.read_wildcards), enc_entries(tab), U.enc(q)))
     if model_ok:
+        # the bit-level model (Model/ShiftAnd.v: packed words, shift / or / and) against the compiled finder, same cases
+        kp2_mod = core.model_run(kp2_lines)
+        nbad2 = 0
+        for i, ((iv, oob), mv) in enumerate(zip(kp_impl, kp2_mod)):
+            mvb = mv == "1"
+            if iv != mvb and not (iv and not mvb and oob):
+                nbad2 += 1
+                if nbad2 <= 10:
+                    ctx.violation("correspondence:kmers_present (shift-and model)", {"adapter": kp_meta[i][0].to_json(), "read": kp_meta[i][1], "impl": iv, "model": mv},
+                                  found_input=False)
+        ctx.notes.setdefault("correspondence", {})["kmers_present[shift-and model]"] = {"cases": len(kp2_lines), "disagreements": nbad2}
         kp_mod = core.model_run(kp_lines)
         nbad = 0
         for i, ((iv, oob), mv) in enumerate(zip(kp_impl, kp_mod)):
